@@ -87,6 +87,9 @@ type Path struct {
 	tmplData     []value
 	nViol        int
 	chooseN      int // number of non-forced choose decisions (shape)
+	stdout       value
+	nums         map[string]*Term // number tokens written by verifNum
+	env          map[string]value
 }
 
 type PathResult struct {
@@ -307,6 +310,13 @@ func (in *Interp) assume(c *Term) {
 			in.res.AssumeDropped++
 			panic(pathEnd{"assume"})
 		}
+		return
+	}
+	if in.path.pos < len(in.path.prefix) {
+		// replaying a recorded prefix: the run that recorded it passed this assumption under the
+		// same path condition and went on to later decisions, so it is satisfiable
+		in.addPC(c)
+		in.setFact(c, true)
 		return
 	}
 	v, _ := in.solve("assume", []*Term{c}, nil)
